@@ -12,7 +12,7 @@ Deviation kinds (the property's list: missing / extra / renamed table, view, col
 default, key membership):
   drop_table rename_table extra_table drop_view rename_view extra_view
   drop_col rename_col extra_col col_type col_notnull col_dflt col_pk
-  drop_index rename_index extra_index
+  drop_index rename_index extra_index index_col
 """
 import os, re, sqlite3, subprocess, shutil, tempfile, z3
 from lsx import driver, models_sqlite, engine as E
@@ -59,14 +59,54 @@ def read_catalog(dirn):
     return cat
 
 # ------------------------------------------------------------------------------------------------ queries
-Q_MASTER = re.compile(r"^SELECT name, tbl_name FROM (?:(\w+)\.)?sqlite_master WHERE type = '(\w+)'$")
+Q_MASTER = re.compile(r"^SELECT name, tbl_name FROM (?:(\w+)\.)?sqlite_master WHERE type = (?:'(\w+)'|\?)$")
 Q_PRAGMA = re.compile(r"^PRAGMA (?:(\w+)\.)?(table_info|index_list|index_info)\('([^']*)'\)$")
-def parse_query(sql):
-    m = Q_MASTER.match(sql.strip())
-    if m: return (m.group(1) or '', 'master', m.group(2))
-    m = Q_PRAGMA.match(sql.strip())
-    if m: return (m.group(1) or '', m.group(2), m.group(3))
-    return None
+# the table-valued form: SELECT <columns> FROM [db.]pragma_table_info(?[, ?]).  SQLite IGNORES a schema prefix on a table-valued pragma function
+# (checked against the real SQLite 3.40: music.pragma_table_info('Information') and perfdata.pragma_table_info('Information') both answer for
+# the first attached database that has the object); the schema is the optional second argument.
+Q_TVF = re.compile(r"^SELECT (.+?) FROM (?:(\w+)\.)?pragma_(table_info|index_list|index_info)\(\s*(\?|'[^']*')\s*(?:,\s*(\?|'[^']*')\s*)?\)$")
+TVF_COLS = {'table_info': ['cid', 'name', 'type', 'notnull', 'dflt_value', 'pk'], 'index_list': ['seq', 'name', 'unique', 'origin', 'partial'], 'index_info': ['seqno', 'cid', 'name']}
+def _bind_text(binds, idx):
+    v = binds.get(idx)
+    if v is None or v[0] != 'text' or any(b.__class__ is not int for b in v[1]): raise E.Inconclusive('sqlmodel', 'catalog query with a non-text or symbolic bound parameter')
+    return bytes(v[1]).decode()
+def resolve_db(cat, kind, name, w):
+    """unqualified lookup: main, then the attached databases in the order the library attaches them (music, perfdata)"""
+    dbs = sorted(set(k[0] for k in cat), key=lambda d: {'': 0, 'music': 1, 'perfdata': 2}.get(d, 9))
+    for db in dbs:
+        if kind == 'index_info': names = [r[0] for r in cat[(db, 'master', 'index')]]
+        else: names = [r[0] for r in cat[(db, 'master', 'table')] + cat[(db, 'master', 'view')]]
+        if w is not None and w.dev is not None and w.dev[1] == db:
+            dk, _, obj, sub = w.dev
+            if dk in ('drop_table', 'rename_table', 'drop_view', 'rename_view') and kind != 'index_info': names = [n for n in names if n != obj]
+            if dk in ('drop_index', 'rename_index') and kind == 'index_info': names = [n for n in names if n != sub]
+        if name in names: return db
+    return dbs[0]
+def parse_query(sql, binds=None, cat=None, w=None):
+    """-> (query key (db, kind, name), projection or None)"""
+    sql = ' '.join(sql.split())
+    m = Q_MASTER.match(sql)
+    if m: return (m.group(1) or '', 'master', m.group(2) or _bind_text(binds or {}, 1)), None
+    m = Q_PRAGMA.match(sql)
+    if m: return (m.group(1) or '', m.group(2), m.group(3)), None
+    m = Q_TVF.match(sql)
+    if m:
+        cols, _ignored_prefix, kind, a1, a2 = m.groups()
+        nb = 0
+        def arg(a):
+            nonlocal nb
+            if a == '?': nb += 1; return _bind_text(binds or {}, nb)
+            return a[1:-1]
+        name = arg(a1); schema = arg(a2) if a2 is not None else None
+        db = schema if schema is not None else resolve_db(cat, kind, name, w)
+        if db == 'main': db = ''
+        want = [c.strip().strip('"[]`') for c in cols.split(',')]
+        if want == ['*']: proj = None
+        else:
+            if any(c not in TVF_COLS[kind] for c in want): raise E.Inconclusive('sqlmodel', 'unknown column in ' + sql[:100])
+            proj = [TVF_COLS[kind].index(c) for c in want]
+        return (db, kind, name), proj
+    return None, None
 
 # ------------------------------------------------------------------------------------------------ deviations
 def enumerate_deviations(cat, kinds=None):
@@ -97,6 +137,11 @@ def enumerate_deviations(cat, kinds=None):
                 if i[3] == 'c': out.append(('drop_index', db, t, i[1])); out.append(('rename_index', db, t, i[1]))
                 elif len(autos) == 1 and i[3] == 'u': out.append(('drop_index', db, t, i[1]))      # a UNIQUE constraint removed (numbering of other automatic indices unaffected)
             out.append(('extra_index', db, t, None))
+            # an index that covers another column of its table (not in the statement's list word for word, but a structural deviation of an index all the same)
+            for i in il:
+                for r in cat[(db, 'index_info', i[1])]:
+                    others = [c[1] for c in cols if c[1] != r[2]][:2]
+                    for o in others: out.append(('index_col', db, t, (i[1], r[0], o)))
         for v in views:
             out.append(('drop_view', db, v, None)); out.append(('rename_view', db, v, None))
         out.append(('extra_table', db, None, None)); out.append(('extra_view', db, None, None))
@@ -126,6 +171,7 @@ def affected(cat, d):
         return qs
     if kind in ('drop_index', 'rename_index'): return {(db, 'index_list', obj), (db, 'index_info', sub), (db, 'master', 'index')}
     if kind == 'extra_index': return {(db, 'index_list', obj), (db, 'master', 'index')}
+    if kind == 'index_col': return {(db, 'index_info', sub[0])}
     raise ValueError(kind)
 
 # ------------------------------------------------------------------------------------------------ symbolic replacement values
@@ -275,6 +321,9 @@ def answer(cat, w, q):
     if qk == 'index_info':
         if kind in ('drop_table', 'rename_table', 'drop_index', 'rename_index', 'drop_col'): return []
         if kind == 'rename_col': rows = [[r[0], r[1], ('text', v['name'])] if r[2] == sub else r for r in rows]
+        elif kind == 'index_col':
+            cid = [c[0] for c in cat[(db, 'table_info', obj)] if c[1] == sub[2]][0]
+            rows = [[r[0], cid, sub[2]] if r[0] == sub[1] else r for r in rows]
         return enc(rows)
     raise ValueError(q)
 
@@ -285,9 +334,9 @@ def install(eng, cat, devs, names_mode='last', allow_no_deviation=True):
     aff = {d: frozenset(affected(cat, d)) for d in devs}
     def execute(st, q_, s_):
         if s_.kind != 'read': return None
-        q = parse_query(s_.sql)
-        if q is None: raise E.Inconclusive('sqlmodel', 'not a catalog query: ' + s_.sql[:120])
         w, answered, offered = st.env.get('cat', (None, frozenset(), frozenset()))
+        q, proj = parse_query(s_.sql, s_.binds, cat, w)
+        if q is None: raise E.Inconclusive('sqlmodel', 'not a catalog query: ' + s_.sql[:120])
         if w is None:
             # deviations whose first affected query is this one: verify() has not yet seen anything they change
             cand = [d for d in devs if q in aff[d] and not (aff[d] & answered)]
@@ -299,6 +348,7 @@ def install(eng, cat, devs, names_mode='last', allow_no_deviation=True):
                     st.log.append('deviation %r' % (cand[k - 1],))
         st.env['cat'] = (w, answered | {q}, offered)
         rows = answer(cat, w, q)
+        if proj is not None: rows = [[r[i] for i in proj] for r in rows]
         s_.rows = [{i: v for i, v in enumerate(r)} for r in rows]
         return len(rows)
     cfg = {'execute': execute, 'max_rows': 0}
